@@ -1,6 +1,8 @@
 """Symbolic interpreter: executes the real function ASTs path by path, cuts loops at their invariants,
 replaces calls by callee contracts and collects named proof obligations."""
 import ast
+import os
+import time
 import copy
 import z3
 from .values import *
@@ -245,6 +247,7 @@ class PathLimit(Exception):
 
 class Engine:
 	MAX_PATHS = 4000
+	MAX_SECONDS = int(os.environ.get('PYVC_FUNC_SECONDS', '420'))     # wall-clock budget for generating the obligations of ONE target
 
 	def __init__(self, repo, registry, lib, prop='?'):
 		self.repo, self.registry, self.lib, self.prop = repo, registry, lib, prop
@@ -340,6 +343,8 @@ class Engine:
 		fi = self.repo.funcinfo(target)
 		self.cur_label = self.label_of(qualname, inst_name)
 		self.top_label = self.cur_label
+		self._t_start = time.time()
+		self._stmt_count = 0
 		reset_names()     # query texts of one function do not depend on what was verified before it
 		self.cur_contract = c
 		self.cur_finfo = fi
@@ -510,7 +515,15 @@ class Engine:
 			else:
 				yield s2, out
 
+	def _budget(self):
+		# changed code can make the symbolic execution loop (a concrete loop that no longer terminates, a path explosion):
+		# that is an undecided target, never a hang of the check
+		self._stmt_count = getattr(self, '_stmt_count', 0) + 1
+		if self._stmt_count % 64 == 0 and time.time() - getattr(self, '_t_start', time.time()) > self.MAX_SECONDS:
+			raise PathLimit(f'obligation generation for {self.cur_label} exceeded {self.MAX_SECONDS} s')
+
 	def exec_stmt(self, node, st):
+		self._budget()
 		m = getattr(self, 'x_' + type(node).__name__, None)
 		if m is None:
 			raise Unsupported(f'statement {type(node).__name__} at line {node.lineno}')
@@ -1265,6 +1278,7 @@ class Engine:
 		return truth(v)
 
 	def ev(self, node, st):
+		self._budget()
 		m = getattr(self, 'e_' + type(node).__name__, None)
 		if m is None:
 			raise Unsupported(f'expression {type(node).__name__} at line {getattr(node, "lineno", "?")}')
